@@ -1,37 +1,25 @@
 (* C16 - Signal definitions normalise to consistent, stable storage parameters.
 
-   Model: SigDef.v (sd_validate, sd_defaults, sd_round_up, sd_fit_loop, sd_align =
-   jls_core_signal_def_validate, signal_def_defaults, round_up_to_multiple, the while
-   loop, jls_core_signal_def_align of /repo/src/core.c, uint32 wrap-around and division by
-   zero explicit).  w = sample width = (data_type >> 8) & 0xff.
+   Model: SigDef.v.  sd_validate, sd_defaults, sd_round_up, sd_fit_loop, sd_align model
+   jls_core_signal_def_validate, signal_def_defaults, round_up_to_multiple, the while loop
+   and jls_core_signal_def_align of the CURRENT /repo/src/core.c (after the fixes 591c3d3,
+   e7caa59 and 9149f75).  w = sample width = (data_type >> 8) & 0xff.  A definition is either
+   stored (SdOk d'), rejected (SdErr JLS_ERROR_PARAMETER_INVALID) - or, only for the width 0
+   that validation never lets through, divides by zero (SdFault).
 
-   FULL STATEMENT of the property (align_total) - FALSE on the current source:
-
-     forall sid src ty dt d, in_range d ->
-       sd_validate sid src ty dt <> 0                                    (rejected)
-       \/ exists d', sd_align (sample_size dt) d = SdOk d'               (stored, no fault)
-            /\ Consistent (sample_size dt) d'                            (relations, minimums, ts factors >= 1)
-            /\ Entry256 (sample_size dt) d'                              (level-1 entry = multiple of 256 bits)
-            /\ sd_align (sample_size dt) d' = SdOk d'.                   (normalising again changes nothing)
-
-   It is refuted by C16_refuted_* below (division by zero = SIGFPE; entries_per_summary
-   stored as 0; 24-bit types without defaults and with 240-bit entries; a consistent normal
-   form whose re-normalisation divides by zero / changes it).
-
-   PROVED VERSION.  C16_align_ok_partial adds exactly the guard [sd_guard w d]:
-     (1) max(sample_decimate_factor', 10) + 256/w - 1 < 2^32        (rounding 1 does not wrap)
-     (2) max(samples_per_data', 10) + sdf1 - 1 < 2^32                (rounding 3 does not wrap; sdf1 = result of 1)
-     (3) max(entries_per_summary', 10) + max(summary_decimate_factor', 10) - 1 < 2^32   (rounding 2)
-     (4) annotation_decimate_factor' <> 0 and utc_decimate_factor' <> 0
-   where x' is the field after defaults.  (4) can only fail for the 24-bit types, which take
-   no defaults.  No separate guard on the products is needed: ((x+m-1)/m)*m <= x+m-1.
-   C16_align_guard_exact shows that the guard is the tightest possible: for in-range
-   inputs it holds IF AND ONLY IF the C returns consistent parameters.  The "multiple of
-   256 bits" clause is proved for every width but 24 (for 24 it holds iff the rounded
-   factor is a multiple of 32: C16_entry256_24).
-   C16_align_idem adds to "consistent" the two no-wrap conditions of the second pass
-   (spd + sdf - 1 < 2^32, eps + sumdf - 1 < 2^32) and, for 24-bit, the C's own grid
-   (sdf multiple of 256/24 = 10); C16_refuted_idem shows they cannot be dropped. *)
+   The property is proved at full strength, no guard:
+     C16_align_total     every definition (7 widths, all 32-bit field values) is either rejected
+                         with PARAMETER_INVALID or stored with parameters that satisfy every
+                         relation - including "a level-1 entry covers a multiple of 256 bits"
+                         for every width, 24 included - and all minimums (annotation/sd_utc
+                         decimate factors >= 10 too).  Never a fault.
+     C16_align_exact     exactly which definitions are rejected (a rounding result or a buffer
+                         byte size that does not fit) and exactly what is stored otherwise.
+     C16_align_idem      align (align d) = align d: whatever is stored is stored again
+                         unchanged (second file = same parameters), unconditionally.
+     C16_align_defaults  zero fields take the per-width defaults, 24-bit types included.
+   The behaviour before the fixes is kept as sd_align_old; C16_old_* are the machine-checked
+   witnesses of the five defect classes that were fixed. *)
 From Coq Require Import NArith List Bool.
 From JLS Require Import Generated SigDef SigDefProofs.
 Import ListNotations.
@@ -41,88 +29,95 @@ Local Open Scope N_scope.
 Theorem C16_Consistent_is : forall w d,
   Consistent w d <->
   ( (sdf d * w) mod 8 = 0 /\
-    ((SAMPLE_SIZE_BYTES_MAX * 8) mod w = 0 -> (sdf d * w) mod (SAMPLE_SIZE_BYTES_MAX * 8) = 0) /\
+    (sdf d * w) mod (SAMPLE_SIZE_BYTES_MAX * 8) = 0 /\
     (sdf d <> 0 /\ spd d mod sdf d = 0) /\
     (spd d / sdf d <> 0 /\ eps d mod (spd d / sdf d) = 0) /\
     (sumdf d <> 0 /\ eps d mod sumdf d = 0) /\
     SAMPLES_PER_DATA_MIN <= spd d /\ SAMPLE_DECIMATE_FACTOR_MIN <= sdf d /\
     ENTRIES_PER_SUMMARY_MIN <= eps d /\ SUMMARY_DECIMATE_FACTOR_MIN <= sumdf d /\
-    1 <= anno d /\ 1 <= utc d ).
+    SUMMARY_DECIMATE_FACTOR_MIN <= sd_anno d /\ SUMMARY_DECIMATE_FACTOR_MIN <= sd_utc d ).
 Proof. exact (fun w d => conj (fun H => H) (fun H => H)). Qed.
 Print Assumptions C16_Consistent_is.
 
-(* under the no-overflow guard the C stores consistent parameters, for all 7 widths *)
-Theorem C16_align_ok_partial : forall w d, In w [1; 4; 8; 16; 24; 32; 64] ->
+(* THE PROPERTY: stored consistent, or rejected - for every width and every 32-bit input *)
+Theorem C16_align_total : forall w d, In w [1; 4; 8; 16; 24; 32; 64] ->
+  (spd d < 2 ^ 32 /\ sdf d < 2 ^ 32 /\ eps d < 2 ^ 32 /\ sumdf d < 2 ^ 32 /\ sd_anno d < 2 ^ 32 /\ sd_utc d < 2 ^ 32) ->
+  (exists d', sd_align w d = SdOk d' /\
+     ( (sdf d' * w) mod 8 = 0 /\
+       (sdf d' * w) mod (SAMPLE_SIZE_BYTES_MAX * 8) = 0 /\
+       (sdf d' <> 0 /\ spd d' mod sdf d' = 0) /\
+       (spd d' / sdf d' <> 0 /\ eps d' mod (spd d' / sdf d') = 0) /\
+       (sumdf d' <> 0 /\ eps d' mod sumdf d' = 0) /\
+       SAMPLES_PER_DATA_MIN <= spd d' /\ SAMPLE_DECIMATE_FACTOR_MIN <= sdf d' /\
+       ENTRIES_PER_SUMMARY_MIN <= eps d' /\ SUMMARY_DECIMATE_FACTOR_MIN <= sumdf d' /\
+       SUMMARY_DECIMATE_FACTOR_MIN <= sd_anno d' /\ SUMMARY_DECIMATE_FACTOR_MIN <= sd_utc d' ) /\
+     (spd d' < 2 ^ 32 /\ sdf d' < 2 ^ 32 /\ eps d' < 2 ^ 32 /\ sumdf d' < 2 ^ 32 /\ sd_anno d' < 2 ^ 32 /\ sd_utc d' < 2 ^ 32) /\
+     (spd d' * w / 8 <= (2 ^ 32 - 1) / 2 /\
+      eps d' * JLS_SUMMARY_FSR_COUNT * SD_SIZEOF_DOUBLE <= (2 ^ 32 - 1) / 2)) \/
+  sd_align w d = SdErr JLS_ERROR_PARAMETER_INVALID.
+Proof. exact align_total. Qed.
+Print Assumptions C16_align_total.
+
+(* exactly what is accepted and what is stored.  sdf1/eps1/spd1 = the three roundings computed
+   without any wrap, k = largest divisor of eps1 that is <= spd1/sdf1 *)
+Theorem C16_align_exact : forall w d, In w [1; 4; 8; 16; 24; 32; 64] ->
   let d1 := sd_defaults w d in
-  let m := (SAMPLE_SIZE_BYTES_MAX * 8) / w in
+  let m := if w =? 24 then 32 else (SAMPLE_SIZE_BYTES_MAX * 8) / w in
   let sdf0 := N.max (sdf d1) SAMPLE_DECIMATE_FACTOR_MIN in
   let sdf1 := (sdf0 + m - 1) / m * m in
-  ( sdf0 + m - 1 < 2 ^ 32 /\
-    N.max (spd d1) SAMPLES_PER_DATA_MIN + sdf1 - 1 < 2 ^ 32 /\
-    N.max (eps d1) ENTRIES_PER_SUMMARY_MIN + N.max (sumdf d1) SUMMARY_DECIMATE_FACTOR_MIN - 1 < 2 ^ 32 /\
-    (anno d1 <> 0 /\ utc d1 <> 0) ) ->
-  exists d', sd_align w d = SdOk d' /\
-    ( (sdf d' * w) mod 8 = 0 /\
-      ((SAMPLE_SIZE_BYTES_MAX * 8) mod w = 0 -> (sdf d' * w) mod (SAMPLE_SIZE_BYTES_MAX * 8) = 0) /\
-      (sdf d' <> 0 /\ spd d' mod sdf d' = 0) /\
-      (spd d' / sdf d' <> 0 /\ eps d' mod (spd d' / sdf d') = 0) /\
-      (sumdf d' <> 0 /\ eps d' mod sumdf d' = 0) /\
-      SAMPLES_PER_DATA_MIN <= spd d' /\ SAMPLE_DECIMATE_FACTOR_MIN <= sdf d' /\
-      ENTRIES_PER_SUMMARY_MIN <= eps d' /\ SUMMARY_DECIMATE_FACTOR_MIN <= sumdf d' /\
-      1 <= anno d' /\ 1 <= utc d' ) /\
-    (w <> 24 -> (sdf d' * w) mod (SAMPLE_SIZE_BYTES_MAX * 8) = 0) /\
-    sdf d' mod ((SAMPLE_SIZE_BYTES_MAX * 8) / w) = 0 /\
-    spd d' < 2 ^ 32 /\ sdf d' < 2 ^ 32 /\ eps d' < 2 ^ 32.
-Proof. exact align_ok_partial. Qed.
-Print Assumptions C16_align_ok_partial.
+  let sumdf1 := N.max (sumdf d1) SUMMARY_DECIMATE_FACTOR_MIN in
+  let eps0 := N.max (eps d1) ENTRIES_PER_SUMMARY_MIN in
+  let eps1 := (eps0 + sumdf1 - 1) / sumdf1 * sumdf1 in
+  let spd0 := N.max (spd d1) SAMPLES_PER_DATA_MIN in
+  let spd1 := (spd0 + sdf1 - 1) / sdf1 * sdf1 in
+  let k := sd_fit_fast eps1 (spd1 / sdf1) in
+  let accepted := sdf1 <= 2 ^ 32 - 1 /\ eps1 <= 2 ^ 32 - 1 /\ spd1 <= 2 ^ 32 - 1 /\
+                  sdf1 * k * w / 8 <= (2 ^ 32 - 1) / 2 /\
+                  eps1 * JLS_SUMMARY_FSR_COUNT * SD_SIZEOF_DOUBLE <= (2 ^ 32 - 1) / 2 in
+  (accepted /\ sd_align w d = SdOk (mkSigDef (sdf1 * k) sdf1 eps1 sumdf1 (sd_anno d1) (sd_utc d1))) \/
+  (~ accepted /\ sd_align w d = SdErr JLS_ERROR_PARAMETER_INVALID).
+Proof. exact align_exact. Qed.
+Print Assumptions C16_align_exact.
 
-(* the guard is exact: for in-range inputs, "the C returns (no fault) and what it returns
-   is consistent" holds if and only if the guard holds *)
-Theorem C16_align_guard_exact : forall w d, In w [1; 4; 8; 16; 24; 32; 64] ->
-  (spd d < 2 ^ 32 /\ sdf d < 2 ^ 32 /\ eps d < 2 ^ 32 /\ sumdf d < 2 ^ 32 /\ anno d < 2 ^ 32 /\ utc d < 2 ^ 32) ->
-  ( (exists d', sd_align w d = SdOk d' /\ Consistent w d') <->
-    let d1 := sd_defaults w d in
-    let m := (SAMPLE_SIZE_BYTES_MAX * 8) / w in
-    let sdf0 := N.max (sdf d1) SAMPLE_DECIMATE_FACTOR_MIN in
-    let sdf1 := (sdf0 + m - 1) / m * m in
-    ( sdf0 + m - 1 < 2 ^ 32 /\
-      N.max (spd d1) SAMPLES_PER_DATA_MIN + sdf1 - 1 < 2 ^ 32 /\
-      N.max (eps d1) ENTRIES_PER_SUMMARY_MIN + N.max (sumdf d1) SUMMARY_DECIMATE_FACTOR_MIN - 1 < 2 ^ 32 /\
-      (anno d1 <> 0 /\ utc d1 <> 0) ) ).
-Proof. exact align_ok_iff. Qed.
-Print Assumptions C16_align_guard_exact.
+(* ... where k is what the loop computes: the largest divisor of e not above epd *)
+Theorem C16_fit_fast_is_loop : forall e epd, e < 2 ^ 32 -> 1 <= epd ->
+  sd_fit_loop (N.to_nat epd) e epd = SdOk (sd_fit_fast e epd) /\
+  1 <= sd_fit_fast e epd /\ sd_fit_fast e epd <= epd /\ e mod sd_fit_fast e epd = 0 /\
+  (forall j, 1 <= j -> j <= epd -> e mod j = 0 -> j <= sd_fit_fast e epd).
+Proof. exact (fun e epd H1 H2 => conj (fit_fast_eq e epd H1 H2) (fit_fast_largest e epd H1 H2)). Qed.
+Print Assumptions C16_fit_fast_is_loop.
 
-(* 24-bit samples: the stored level-1 entry is a multiple of 256 bits iff the stored factor
-   (always a multiple of 10) is also a multiple of 32 *)
-Theorem C16_entry256_24 : forall d, (sdf d * 24) mod (SAMPLE_SIZE_BYTES_MAX * 8) = 0 <-> sdf d mod 32 = 0.
-Proof. exact entry256_24. Qed.
-Print Assumptions C16_entry256_24.
+(* the rejection branch is not the whole story: moderate parameters are always accepted *)
+Theorem C16_align_accepts_moderate : forall w d, In w [1; 4; 8; 16; 24; 32; 64] ->
+  spd d <= 16777216 -> sdf d <= 16777216 -> eps d <= 16777216 -> sumdf d <= 16777216 ->
+  exists d', sd_align w d = SdOk d'.
+Proof. exact align_accepts_moderate. Qed.
+Print Assumptions C16_align_accepts_moderate.
 
-(* normalising normalised parameters changes nothing *)
-Theorem C16_align_idem : forall w d, In w [1; 4; 8; 16; 24; 32; 64] ->
-  Consistent w d ->
-  sdf d mod ((SAMPLE_SIZE_BYTES_MAX * 8) / w) = 0 ->
-  spd d + sdf d - 1 < 2 ^ 32 -> eps d + sumdf d - 1 < 2 ^ 32 ->
-  sd_align w d = SdOk d.
+(* normalising normalised parameters changes nothing - no side condition *)
+Theorem C16_align_idem : forall w d d', In w [1; 4; 8; 16; 24; 32; 64] ->
+  sd_align w d = SdOk d' -> sd_align w d' = SdOk d'.
 Proof. exact align_idem. Qed.
 Print Assumptions C16_align_idem.
 
-(* a file written from a definition read out of another file uses identical parameters,
-   provided the second normalisation's two roundings do not wrap *)
-Theorem C16_align_twice : forall w d d', In w [1; 4; 8; 16; 24; 32; 64] ->
-  sd_guard w d -> sd_align w d = SdOk d' ->
-  spd d' + sdf d' - 1 < 2 ^ 32 -> eps d' + sumdf d' - 1 < 2 ^ 32 ->
-  sd_align w d' = SdOk d'.
-Proof. exact align_twice. Qed.
-Print Assumptions C16_align_twice.
+(* the same for any consistent definition that fits 32 bits and the buffer-size limits,
+   wherever it comes from *)
+Theorem C16_align_idem_consistent : forall w d, In w [1; 4; 8; 16; 24; 32; 64] ->
+  Consistent w d -> spd d < 2 ^ 32 -> eps d < 2 ^ 32 ->
+  (spd d * w / 8 <= (2 ^ 32 - 1) / 2 /\ eps d * JLS_SUMMARY_FSR_COUNT * SD_SIZEOF_DOUBLE <= (2 ^ 32 - 1) / 2) ->
+  sd_align w d = SdOk d.
+Proof. exact align_idem_consistent. Qed.
+Print Assumptions C16_align_idem_consistent.
 
-(* zero fields take the per-width defaults (annotation/utc: the 32-bit table's) *)
-Theorem C16_align_defaults : forall w d, In w [1; 4; 8; 16; 24; 32; 64] -> w <> 24 ->
+(* zero fields take the per-width defaults (annotation/sd_utc: the 32-bit table's, then raised to the
+   minimum), all 7 widths *)
+Theorem C16_align_defaults : forall w d, In w [1; 4; 8; 16; 24; 32; 64] ->
   exists t, sd_table w = Some t /\
-    (spd t <> 0 /\ sdf t <> 0 /\ eps t <> 0 /\ sumdf t <> 0 /\ anno t <> 0 /\ utc t <> 0) /\
+    (spd t <> 0 /\ sdf t <> 0 /\ eps t <> 0 /\ sumdf t <> 0 /\ sd_anno t <> 0 /\ sd_utc t <> 0) /\
     let d1 := mkSigDef (if spd d =? 0 then spd t else spd d) (if sdf d =? 0 then sdf t else sdf d)
                        (if eps d =? 0 then eps t else eps d) (if sumdf d =? 0 then sumdf t else sumdf d)
-                       (if anno d =? 0 then anno t else anno d) (if utc d =? 0 then utc t else utc d) in
+                       (N.max (if sd_anno d =? 0 then sd_anno t else sd_anno d) SUMMARY_DECIMATE_FACTOR_MIN)
+                       (N.max (if sd_utc d =? 0 then sd_utc t else sd_utc d) SUMMARY_DECIMATE_FACTOR_MIN) in
     sd_defaults w d = d1 /\ sd_defaults w d1 = d1 /\ sd_align w d = sd_align w d1.
 Proof. exact align_defaults. Qed.
 Print Assumptions C16_align_defaults.
@@ -132,6 +127,7 @@ Theorem C16_defaults_normal_forms :
   sd_align 4 sd_zero = SdOk (mkSigDef DEF4_samples_per_data DEF4_sample_decimate_factor DEF4_entries_per_summary DEF4_summary_decimate_factor DEF32_annotation_decimate_factor DEF32_utc_decimate_factor) /\
   sd_align 8 sd_zero = SdOk (mkSigDef DEF8_samples_per_data DEF8_sample_decimate_factor DEF8_entries_per_summary DEF8_summary_decimate_factor DEF32_annotation_decimate_factor DEF32_utc_decimate_factor) /\
   sd_align 16 sd_zero = SdOk (mkSigDef DEF16_samples_per_data DEF16_sample_decimate_factor DEF16_entries_per_summary DEF16_summary_decimate_factor DEF32_annotation_decimate_factor DEF32_utc_decimate_factor) /\
+  sd_align 24 sd_zero = SdOk (mkSigDef DEF32_samples_per_data DEF32_sample_decimate_factor DEF32_entries_per_summary DEF32_summary_decimate_factor DEF32_annotation_decimate_factor DEF32_utc_decimate_factor) /\
   sd_align 32 sd_zero = SdOk (mkSigDef DEF32_samples_per_data DEF32_sample_decimate_factor DEF32_entries_per_summary DEF32_summary_decimate_factor DEF32_annotation_decimate_factor DEF32_utc_decimate_factor) /\
   sd_align 64 sd_zero = SdOk (mkSigDef DEF64_samples_per_data DEF64_sample_decimate_factor DEF64_entries_per_summary DEF64_summary_decimate_factor DEF32_annotation_decimate_factor DEF32_utc_decimate_factor).
 Proof. exact defaults_normal_forms. Qed.
@@ -143,9 +139,7 @@ Theorem C16_validate_width : forall sid src ty dt,
 Proof. exact validate_ok_width. Qed.
 Print Assumptions C16_validate_width.
 
-(* the loop: with fuel = entries_per_data it never runs out of fuel (it terminates for
-   entries_per_data >= 1 with the largest divisor of entries_per_summary below it, and
-   divides by zero for entries_per_data = 0) *)
+(* the loop: with fuel = entries_per_data it never runs out of fuel *)
 Theorem C16_loop_terminates : forall e epd, 1 <= epd ->
   exists k, sd_fit_loop (N.to_nat epd) e epd = SdOk k /\
     1 <= k /\ k <= epd /\ e mod k = 0 /\ (forall j, 1 <= j -> j <= epd -> e mod j = 0 -> j <= k).
@@ -161,103 +155,73 @@ Theorem C16_extracted_is_model : forall w d, sd_align_fast w d = sd_align w d.
 Proof. exact align_fast_eq. Qed.
 Print Assumptions C16_extracted_is_model.
 
-(* the executable oracles evaluated on the implementation's output reflect the propositions *)
+(* the executable oracle evaluated on the implementation's output reflects the proposition *)
 Theorem C16_consistentb_reflects : forall w d, consistentb w d = true <-> Consistent w d.
 Proof. exact consistentb_iff. Qed.
 Print Assumptions C16_consistentb_reflects.
 
-Theorem C16_guardb_reflects : forall w d, sd_guardb w d = true <-> sd_guard w d.
-Proof. exact guardb_iff. Qed.
-Print Assumptions C16_guardb_reflects.
+(* --- concrete instances --- *)
+Example C16_align_examples :
+  sd_align 32 (mkSigDef 1000 100 33 17 3 3) = SdOk (mkSigDef 208 104 34 17 10 10) /\
+  sd_align 24 (mkSigDef 100 11 100 10 5 5) = SdOk (mkSigDef 128 32 100 10 10 10) /\
+  Consistent 24 (mkSigDef 128 32 100 10 10 10).
+Proof. exact align_examples. Qed.
+Print Assumptions C16_align_examples.
 
-(* --- hypotheses are satisfiable --- *)
-Example C16_defaults_meet_guard : forall w, In w [1; 4; 8; 16; 24; 32; 64] -> w <> 24 -> sd_guard w sd_zero.
-Proof. exact defaults_meet_guard. Qed.
-Print Assumptions C16_defaults_meet_guard.
-
-Example C16_guard_example :
-  sd_guard 32 (mkSigDef 1000 100 33 17 3 3) /\
-  sd_align 32 (mkSigDef 1000 100 33 17 3 3) = SdOk (mkSigDef 208 104 34 17 3 3).
-Proof. exact guard_example. Qed.
-Print Assumptions C16_guard_example.
-
-Example C16_guard_example_24 :
-  sd_guard 24 (mkSigDef 100 11 100 10 5 5) /\
-  sd_align 24 (mkSigDef 100 11 100 10 5 5) = SdOk (mkSigDef 100 20 100 10 5 5).
-Proof. exact guard_example_24. Qed.
-Print Assumptions C16_guard_example_24.
+Example C16_reject_examples :
+  sd_align 32 (mkSigDef 0 4294967295 0 0 0 0) = SdErr JLS_ERROR_PARAMETER_INVALID /\
+  sd_align 64 (mkSigDef 536870912 128 4194304 16 0 0) = SdErr JLS_ERROR_PARAMETER_INVALID /\
+  sd_align 32 (mkSigDef 0 0 70000000 0 0 0) = SdErr JLS_ERROR_PARAMETER_INVALID.
+Proof. exact reject_examples. Qed.
+Print Assumptions C16_reject_examples.
 
 Example C16_idem_example :
   let d := mkSigDef 8192 128 640 20 100 100 in
-  In 32 [1; 4; 8; 16; 24; 32; 64] /\ Consistent 32 d /\ sdf d mod ((SAMPLE_SIZE_BYTES_MAX * 8) / 32) = 0 /\
-  spd d + sdf d - 1 < 2 ^ 32 /\ eps d + sumdf d - 1 < 2 ^ 32.
+  In 32 [1; 4; 8; 16; 24; 32; 64] /\ Consistent 32 d /\ spd d < 2 ^ 32 /\ eps d < 2 ^ 32 /\
+  (spd d * 32 / 8 <= (2 ^ 32 - 1) / 2 /\ eps d * JLS_SUMMARY_FSR_COUNT * SD_SIZEOF_DOUBLE <= (2 ^ 32 - 1) / 2).
 Proof. exact idem_example. Qed.
 Print Assumptions C16_idem_example.
 
-(* --- the unguarded statement is false of the current source --- *)
+(* --- the five defect classes fixed in /repo: behaviour before (sd_align_old) and now --- *)
 
-(* SIGFPE: u64, sample_decimate_factor = 2^32-6 (rounding of samples_per_data wraps to 0) *)
-Theorem C16_refuted_divzero_spd :
+(* sd_sigdef-overflow-divzero *)
+Theorem C16_old_divzero :
   sd_validate 1 1 JLS_SIGNAL_TYPE_FSR JLS_DATATYPE_U64 = 0 /\
-  in_range (mkSigDef 0 4294967290 0 0 0 0) /\
-  sd_align (sample_size JLS_DATATYPE_U64) (mkSigDef 0 4294967290 0 0 0 0) = SdFault SdDivZero.
-Proof. exact refuted_divzero_spd. Qed.
-Print Assumptions C16_refuted_divzero_spd.
+  sd_align_old (sample_size JLS_DATATYPE_U64) (mkSigDef 0 4294967290 0 0 0 0) = SdFault SdDivZero /\
+  sd_align (sample_size JLS_DATATYPE_U64) (mkSigDef 0 4294967290 0 0 0 0) = SdErr JLS_ERROR_PARAMETER_INVALID /\
+  sd_align_old (sample_size JLS_DATATYPE_F32) (mkSigDef 0 4294967295 0 0 0 0) = SdFault SdDivZero /\
+  sd_align (sample_size JLS_DATATYPE_F32) (mkSigDef 0 4294967295 0 0 0 0) = SdErr JLS_ERROR_PARAMETER_INVALID.
+Proof. exact old_divzero. Qed.
+Print Assumptions C16_old_divzero.
 
-(* SIGFPE: f32, sample_decimate_factor = 2^32-1 (its own rounding wraps to 0) *)
-Theorem C16_refuted_divzero_sdf :
-  sd_validate 1 1 JLS_SIGNAL_TYPE_FSR JLS_DATATYPE_F32 = 0 /\
-  in_range (mkSigDef 0 4294967295 0 0 0 0) /\
-  sd_align (sample_size JLS_DATATYPE_F32) (mkSigDef 0 4294967295 0 0 0 0) = SdFault SdDivZero.
-Proof. exact refuted_divzero_sdf. Qed.
-Print Assumptions C16_refuted_divzero_sdf.
+(* sd_sigdef-overflow-inconsistent *)
+Theorem C16_old_eps_zero :
+  sd_align_old 32 (mkSigDef 0 0 4294967295 0 0 0) = SdOk (mkSigDef 8192 128 0 20 100 100) /\
+  ~ Consistent 32 (mkSigDef 8192 128 0 20 100 100) /\
+  sd_align 32 (mkSigDef 0 0 4294967295 0 0 0) = SdErr JLS_ERROR_PARAMETER_INVALID.
+Proof. exact old_eps_zero. Qed.
+Print Assumptions C16_old_eps_zero.
 
-(* f32, entries_per_summary = 2^32-1: wraps to 0 and is stored as 0 *)
-Theorem C16_refuted_eps_zero :
-  sd_validate 1 1 JLS_SIGNAL_TYPE_FSR JLS_DATATYPE_F32 = 0 /\
-  in_range (mkSigDef 0 0 4294967295 0 0 0) /\
-  sd_align (sample_size JLS_DATATYPE_F32) (mkSigDef 0 0 4294967295 0 0 0) = SdOk (mkSigDef 8192 128 0 20 100 100) /\
-  ~ Consistent (sample_size JLS_DATATYPE_F32) (mkSigDef 8192 128 0 20 100 100).
-Proof. exact refuted_eps_zero. Qed.
-Print Assumptions C16_refuted_eps_zero.
+(* sd_sigdef-24bit-zero-ts-factors, sd_sigdef-24bit-not-256-multiple *)
+Theorem C16_old_24bit :
+  sd_align_old 24 sd_zero = SdOk (mkSigDef 10 10 10 10 0 0) /\
+  ~ (SUMMARY_DECIMATE_FACTOR_MIN <= sd_anno (mkSigDef 10 10 10 10 0 0)) /\ ~ Entry256 24 (mkSigDef 10 10 10 10 0 0) /\
+  sd_align_old 24 (mkSigDef 100 11 100 10 5 5) = SdOk (mkSigDef 100 20 100 10 5 5) /\
+  ~ Entry256 24 (mkSigDef 100 20 100 10 5 5) /\
+  sd_align 24 sd_zero = SdOk (mkSigDef 8192 128 640 20 100 100) /\
+  sd_align 24 (mkSigDef 100 11 100 10 5 5) = SdOk (mkSigDef 128 32 100 10 10 10).
+Proof. exact old_24bit. Qed.
+Print Assumptions C16_old_24bit.
 
-(* i24, all-default definition: no defaults, annotation/utc factors 0, 240-bit entries *)
-Theorem C16_refuted_24bit :
-  sd_validate 1 1 JLS_SIGNAL_TYPE_FSR JLS_DATATYPE_I24 = 0 /\
-  sd_align (sample_size JLS_DATATYPE_I24) sd_zero = SdOk (mkSigDef 10 10 10 10 0 0) /\
-  ~ Consistent (sample_size JLS_DATATYPE_I24) (mkSigDef 10 10 10 10 0 0) /\
-  ~ Entry256 (sample_size JLS_DATATYPE_I24) (mkSigDef 10 10 10 10 0 0).
-Proof. exact refuted_24bit. Qed.
-Print Assumptions C16_refuted_24bit.
-
-(* 24-bit inside the guard: consistent, but the level-1 entry is 480 bits *)
-Theorem C16_refuted_24bit_entry256 :
-  sd_guard 24 (mkSigDef 100 11 100 10 5 5) /\
-  sd_align 24 (mkSigDef 100 11 100 10 5 5) = SdOk (mkSigDef 100 20 100 10 5 5) /\
-  Consistent 24 (mkSigDef 100 20 100 10 5 5) /\ ~ Entry256 24 (mkSigDef 100 20 100 10 5 5).
-Proof. exact refuted_24bit_entry256. Qed.
-Print Assumptions C16_refuted_24bit_entry256.
-
-(* "consistent and in range" alone does not make normalisation the identity *)
-Theorem C16_refuted_idem :
-  let d := mkSigDef 3221225472 3221225472 10 10 100 100 in
-  Consistent 64 d /\ in_range d /\ sdf d mod sd_multiple 64 = 0 /\ sd_align 64 d = SdFault SdDivZero.
-Proof. exact refuted_idem_consistent_only. Qed.
-Print Assumptions C16_refuted_idem.
-
-(* a guarded definition whose stored form faults when it is defined again (second file) *)
-Theorem C16_refuted_twice_divzero :
-  let d := mkSigDef 10 3221225472 10 10 0 0 in
-  let d' := mkSigDef 3221225472 3221225472 10 10 100 100 in
-  sd_guard 64 d /\ sd_align 64 d = SdOk d' /\ Consistent 64 d' /\ sd_align 64 d' = SdFault SdDivZero.
-Proof. exact refuted_twice_divzero. Qed.
-Print Assumptions C16_refuted_twice_divzero.
-
-(* ... or is stored differently (entries_per_summary becomes 0) *)
-Theorem C16_refuted_twice_changes :
-  let d := mkSigDef 0 0 10 2147483649 0 0 in
-  let d' := mkSigDef 384 128 2147483649 2147483649 100 100 in
-  sd_guard 32 d /\ sd_align 32 d = SdOk d' /\ Consistent 32 d' /\
-  sd_align 32 d' = SdOk (mkSigDef 384 128 0 2147483649 100 100).
-Proof. exact refuted_twice_changes. Qed.
-Print Assumptions C16_refuted_twice_changes.
+(* sd_sigdef-renormalise-overflow *)
+Theorem C16_old_renormalise :
+  sd_align_old 64 (mkSigDef 10 3221225472 10 10 0 0) = SdOk (mkSigDef 3221225472 3221225472 10 10 100 100) /\
+  Consistent 64 (mkSigDef 3221225472 3221225472 10 10 100 100) /\
+  sd_align_old 64 (mkSigDef 3221225472 3221225472 10 10 100 100) = SdFault SdDivZero /\
+  sd_align_old 32 (mkSigDef 0 0 10 2147483649 0 0) = SdOk (mkSigDef 384 128 2147483649 2147483649 100 100) /\
+  Consistent 32 (mkSigDef 384 128 2147483649 2147483649 100 100) /\
+  sd_align_old 32 (mkSigDef 384 128 2147483649 2147483649 100 100) = SdOk (mkSigDef 384 128 0 2147483649 100 100) /\
+  sd_align 64 (mkSigDef 10 3221225472 10 10 0 0) = SdErr JLS_ERROR_PARAMETER_INVALID /\
+  sd_align 32 (mkSigDef 0 0 10 2147483649 0 0) = SdErr JLS_ERROR_PARAMETER_INVALID.
+Proof. exact old_renormalise. Qed.
+Print Assumptions C16_old_renormalise.
